@@ -18,7 +18,8 @@ func init() {
 				"(2) the event send is a blocking select over exactly {done, Events}, skipped only for Op==0, and reports failure only on the done branch; " +
 				"(3) the handler returns an empty event only for the enumerated reasons (unknown wd; IN_IGNORED/IN_UNMOUNT; IN_MOVE_SELF of a recursive watch; IN_DELETE_SELF duplicated by the watched parent) and otherwise returns the translator's event unmodified; " +
 				"(4) IN_Q_OVERFLOW sends ErrEventOverflow and, when that send succeeds, continues with the same record; " +
-				"(5) the native flags requested for the default operation set include every flag the translator maps to one of those operations. " +
+				"(5) the native flags requested for the default operation set include every flag the translator maps to one of those operations; " +
+				"(6) Remove deletes only the entry of the named path unless the watch is recursive (a watch ended behind the user's back loses every later event). " +
 				"Not decided: that the kernel emits the notification; name-length/batching arithmetic beyond the linear form; histories.",
 			Rule:        "obligations per loop-shape fact, per loop exit edge, per select state, per empty-event return, per requested flag; non-trivial = the construct exists in the reader",
 			Assumptions: []string{"go/types + go/ssa", "types.Sizes of the target for Sizeof(unix.InotifyEvent)", "C15 (flag tables) and C16 (Op.Has) for the meaning of bit tests"},
@@ -43,6 +44,10 @@ func runC01(p *Program, e *Engine, r *Result, tier string) {
 	c01Drops(a, df, "C01.3")
 	c01Overflow(a, df, "C01.4")
 	c01Subscription(a, "C01.5")
+	// (6) a watch is ended only for the path named in Remove (a silently removed watch loses all later events)
+	if tf := findTables(a); tf != nil && a.Ro.API["Remove"] != nil {
+		c04RemoveExact(a, tf, a.Ro.API["Remove"], "C01.6")
+	}
 }
 
 func sizeofRecord(a *An, df *DecodeFacts) int64 {
@@ -447,6 +452,11 @@ func c01Drops(a *An, df *DecodeFacts, rule string) {
 				case isBitLit(l, "IN_UNMOUNT", a):
 					reason = "IN_UNMOUNT"
 				}
+			}
+			if reason == "" && c.has(func(l Lit) bool {
+				return l.A.Kind == AkPred && l.Neg && l.A.Callee != nil && (ro.isSendError(l.A.Callee) || ro.isSendEvent(l.A.Callee))
+			}) {
+				reason = "closed"
 			}
 			if reason == "" {
 				hasMoveSelf := c.has(func(l Lit) bool { return isBitLit(l, "IN_MOVE_SELF", a) })
